@@ -5,7 +5,7 @@
     take the point clouds' (fileOffset, recordCount, prototype types) and the
     images' blob references.  Float parsing is an oracle parameter, as in
     Model/XmlExtract.v; the descriptors contain no floats.  No proofs here. *)
-From E57 Require Import Base.Prelude Model.Record Model.Meta Model.MetaFile Model.XmlTree Model.XmlParse
+From E57 Require Import Base.Prelude Base.Floats Model.Record Model.Meta Model.MetaFile Model.XmlTree Model.XmlParse
   Model.XmlExtract Spec.FileSpec.
 
 Definition pointcloud_descriptor (pc : pointcloud) : descriptor :=
@@ -52,11 +52,82 @@ Definition dx_of (x : list N) : option (list descriptor) :=
 Definition dx_total (x : list N) : list descriptor :=
   match dx_of x with Some l => l | None => [] end.
 
+(** ** The value of a prototype element lies within the element's own limits
+
+    The text of an Integer / ScaledInteger / Float element is its value; in a prototype it is
+    a sample value and, like every value of that element, has to lie within [minimum, maximum]
+    of the same element where these are declared (an implementation that builds typed nodes from
+    the XML rejects the file otherwise).  Read from the parsed tree: the extractors of the
+    crate's reader ignore this text.  An absent text is the value 0; absent integer limits are
+    the i64 range, absent float limits do not bound; floats are compared as floats (a NaN
+    limit or value is never in bounds). *)
+Definition S_PROTOTYPE : xstr := [112;114;111;116;111;116;121;112;101].
+Definition S_TYPE_ : xstr := [116;121;112;101].
+Definition S_INTEGER : xstr := [73;110;116;101;103;101;114].
+Definition S_SCALED : xstr := [83;99;97;108;101;100;73;110;116;101;103;101;114].
+Definition S_FLOAT : xstr := [70;108;111;97;116].
+Definition S_MINIMUM : xstr := [109;105;110;105;109;117;109].
+Definition S_MAXIMUM : xstr := [109;97;120;105;109;117;109].
+Definition S_PRECISION : xstr := [112;114;101;99;105;115;105;111;110].
+Definition S_SINGLE : xstr := [115;105;110;103;108;101].
+
+Definition le64 (a b : N) : bool := f64_le (f64_of_bits a) (f64_of_bits b).
+Definition le32 (a b : N) : bool := f32_le (f32_of_bits a) (f32_of_bits b).
+
+(** parse what is there, take the default for what is absent *)
+Definition opt_parse {A} (p : xstr -> option A) (o : option xstr) (d : A) : option A :=
+  match o with Some t => p t | None => Some d end.
+
+Definition int_value_ok (n : xnode) : bool :=
+  match opt_parse parse_i64 (node_text n) 0%Z,
+        opt_parse parse_i64 (attribute S_MINIMUM n) i64_MIN,
+        opt_parse parse_i64 (attribute S_MAXIMUM n) i64_MAX with
+  | Some v, Some mn, Some mx => ((mn <=? v) && (v <=? mx))%Z
+  | _, _, _ => false
+  end.
+
+(** a declared float limit must parse and satisfy [cmp]; an absent one does not bound *)
+Definition float_bound_ok (pf : xstr -> option N) (o : option xstr) (cmp : N -> bool) : bool :=
+  match o with
+  | None => true
+  | Some t => match pf t with Some b => cmp b | None => false end
+  end.
+
+Definition float_value_ok (pf : xstr -> option N) (le : N -> N -> bool) (n : xnode) : bool :=
+  match opt_parse pf (node_text n) 0 with
+  | Some v => float_bound_ok pf (attribute S_MINIMUM n) (fun b => le b v)
+              && float_bound_ok pf (attribute S_MAXIMUM n) (fun b => le v b)
+  | None => false
+  end.
+
+Definition proto_elem_ok (n : xnode) : bool :=
+  match attribute S_TYPE_ n with
+  | Some ty =>
+      if xstr_eqb ty S_INTEGER || xstr_eqb ty S_SCALED then int_value_ok n
+      else if xstr_eqb ty S_FLOAT then
+        match attribute S_PRECISION n with
+        | Some p => if xstr_eqb p S_SINGLE then float_value_ok pf32 le32 n else float_value_ok pf64 le64 n
+        | None => float_value_ok pf64 le64 n
+        end
+      else true
+  | None => true
+  end.
+
+(** the element children of every element named [prototype] *)
+Definition prototype_elements (d : xdoc) : list xnode :=
+  flat_map (fun n => if has_tag_name S_PROTOTYPE n then filter is_element (children n) else [])
+           (doc_descendants d).
+
+Definition proto_values_ok (d : xdoc) : bool := forallb proto_elem_ok (prototype_elements d).
+
+Definition xml_proto_values_ok (x : list N) : bool :=
+  match xml_parse x with ParseOk d => proto_values_ok d | _ => false end.
+
 (** the whole file: binary side as in Spec/FileSpec.v, with the descriptors the XML states; the
-    XML itself must parse and extract *)
+    XML itself must parse and extract, and its prototype values must lie within their limits *)
 Definition spec_wellformed_xml (f : list N) : bool :=
   match dx_of (file_xml f) with
-  | Some _ => spec_wellformed f dx_total
+  | Some _ => spec_wellformed f dx_total && xml_proto_values_ok (file_xml f)
   | None => false
   end.
 
